@@ -296,6 +296,7 @@ def force_sibling_net(rng, d, b):
 def gen_design(rng, name, mode):
   d = ec.gen_hierarchy(rng, name)
   ifc_driven = ec.add_interfaces(rng, d) if mode != 'wild' and d.levels >= 2 and rng.random() < 0.3 else []
+  if mode != 'wild' and d.levels >= 2 and rng.random() < 0.25: ifc_driven = ifc_driven + ec.add_hook_interfaces(rng, d)
   b = Builder(rng, d)
   for x in ifc_driven: b.drv[x.root] = full_mask(x)
   d.mode = mode
